@@ -23,5 +23,10 @@ for c in m['checks']:
         if not os.path.exists(os.path.join('coq', f + 'o')):
             missing.append(f)
 print('setup: %d registered checks, theorem files missing: %s' % (len(m['checks']), missing or 'none'))
+import vlib.main as vm
+bad = vm.hygiene()
+print('setup: forbidden constructs in the whole Coq tree (Admitted, Axiom, Parameter, top-level Variable, kernel flags ...): %s' % (bad or 'none'))
+if bad:
+    missing.append('hygiene')
 sys.exit(1 if missing else 0)
 PY
